@@ -18,7 +18,7 @@
 #define C04_RL_OLD_WANTED(l) (C04_RL_IS_A(l) ? __CPROVER_old(g_c04_rl.rl.a_right) : __CPROVER_old(g_c04_rl.rl.b_right))
 #define C04_RL_OLD_OTHER_CALLS(l) (C04_RL_IS_A(l) ? __CPROVER_old(g_c04_rl.b_calls) : __CPROVER_old(g_c04_rl.a_calls))
 #define C04_RL_OLD_OTHER_WANTED(l) (C04_RL_IS_A(l) ? __CPROVER_old(g_c04_rl.rl.b_right) : __CPROVER_old(g_c04_rl.rl.a_right))
-#define C04_RL_FRAME g_c04_rl, g_c04_rl_alink, g_c04_rl_blink, g_c04_hcls[C04_H_LINK_A], g_c04_hcls[C04_H_LINK_B]
+#define C04_RL_FRAME g_c04_rl, g_c04_rl_alink.isLeft, g_c04_rl_blink.isLeft, g_c04_hcls[C04_H_LINK_A], g_c04_hcls[C04_H_LINK_B]
 
 /* getNextLink: from *pos on, the first link of the wanted kind (or none), skipping links of the other kind only */
 static int getNextLink(KSI_HashChainLinkList *list, bool getRight, size_t *pos, KSI_HashChainLink **link)
@@ -37,6 +37,8 @@ __CPROVER_ensures(IMPLIES(list != NULL && __CPROVER_return_value != KSI_OK, C04_
 __CPROVER_ensures(IMPLIES(list != NULL && __CPROVER_return_value == KSI_OK, !C04_RL_ERR(list)))
 /* the other list and the comparison record are untouched */
 __CPROVER_ensures(IMPLIES(list != NULL, C04_RL_OTHER_CALLS(list) == C04_RL_OLD_OTHER_CALLS(list) && C04_RL_OTHER_WANTED(list) == C04_RL_OLD_OTHER_WANTED(list)))
+__CPROVER_ensures(IMPLIES(C04_RL_IS_A(list), IFF(g_c04_rl.b_last_wanted, __CPROVER_old(g_c04_rl.b_last_wanted))))
+__CPROVER_ensures(IMPLIES(list == &g_c04_extLinks, IFF(g_c04_rl.a_last_wanted, __CPROVER_old(g_c04_rl.a_last_wanted))))
 __CPROVER_ensures(g_c04_rl.rl.compared == __CPROVER_old(g_c04_rl.rl.compared) && g_c04_rl.rl.unequal == __CPROVER_old(g_c04_rl.rl.unequal)
 	&& g_c04_rl.a_err == (__CPROVER_old(g_c04_rl.a_err) || (C04_RL_IS_A(list) && __CPROVER_return_value != KSI_OK))
 	&& g_c04_rl.b_err == (__CPROVER_old(g_c04_rl.b_err) || (list == &g_c04_extLinks && __CPROVER_return_value != KSI_OK)))
